@@ -6,7 +6,7 @@
    once-unreduced (1) and may feed a multiplication or squaring but not another add/sub/neg.
    TLC (-simulate) prints programs; the harness runs them on the real Fe type with concrete
    inputs from the boundary pool; TraceCurve recomputes the value after every step. *)
-EXTENDS Integers, Sequences, TLC, Json
+EXTENDS Integers, Sequences, FiniteSets, TLC, Json
 CONSTANTS MaxOps, NPool
 VARIABLES loose, nops, hist
 vars == <<loose, nops, hist>>
@@ -25,8 +25,21 @@ Eq(a, b) == Tick /\ UNCHANGED loose /\ hist' = Append(hist, [op |-> "eq", a |-> 
 \* the same value held in two limb representations must compare equal: d := from_bytes(to_bytes(a)); a == d; d == a
 EqSame(d, a) == /\ d # a /\ nops + 3 <= MaxOps /\ nops' = nops + 3 /\ loose' = [loose EXCEPT ![d] = 0]
                 /\ hist' = hist \o <<[op |-> "recanon", d |-> d, a |-> a], [op |-> "eq", a |-> a, b |-> d], [op |-> "eq", a |-> d, b |-> a]>>
+\* the difference of two representations of the same reduced value is zero, whatever its limbs look like:
+\* d := from_bytes(to_bytes(a)); d := d - a; to_bytes(d) = 0, is_nonzero(d) = FALSE, d = d - d ... observed through the step results
+ZeroDiff(d, a) == /\ d # a /\ loose[a] = 0 /\ nops + 4 <= MaxOps /\ nops' = nops + 4 /\ loose' = [loose EXCEPT ![d] = 1]
+                  /\ hist' = hist \o <<[op |-> "recanon", d |-> d, a |-> a], [op |-> "sub", d |-> d, a |-> d, b |-> a],
+                                        [op |-> "is_nonzero", a |-> d], [op |-> "is_negative", a |-> d]>>
+\* zero reached as v + (p - v), an integer multiple of p that is not 0: to_bytes must still give 0 and is_nonzero FALSE
+\* ("comp" asks the orchestrator for the encoding of p - v, v the value of pool entry i)
+ZeroSum(d, e, t, i) == /\ Cardinality({d, e, t}) = 3 /\ nops + 6 <= MaxOps /\ nops' = nops + 6
+                       /\ loose' = [loose EXCEPT ![d] = 0, ![e] = 0, ![t] = 1]
+                       /\ hist' = hist \o <<[op |-> "from_bytes", d |-> d, pool |-> i], [op |-> "from_bytes", d |-> e, pool |-> i, comp |-> TRUE],
+                                             [op |-> "add", d |-> t, a |-> d, b |-> e], [op |-> "is_nonzero", a |-> t], [op |-> "is_negative", a |-> t],
+                                             [op |-> "eq", a |-> t, b |-> t]>>
 Next == \/ \E d \in Regs, i \in 1..NPool : Load(d, i)
-        \/ \E d, a \in Regs : EqSame(d, a)
+        \/ \E d, e, t \in Regs, i \in 1..NPool : ZeroSum(d, e, t, i)
+        \/ \E d, a \in Regs : EqSame(d, a) \/ ZeroDiff(d, a)
         \/ \E d, a, b \in Regs : Lin2("add", d, a, b) \/ Lin2("sub", d, a, b) \/ Mul(d, a, b)
         \/ \E d, a \in Regs : Neg(d, a) \/ Un("square", d, a) \/ Un("square_and_double", d, a) \/ Un("invert", d, a) \/ Un("pow25523", d, a)
         \/ \E d, a \in Regs, n \in {1, 2, 5} : SqN(d, a, n)
